@@ -204,8 +204,8 @@ void run_case(ByteSource& s, CaseInfo& ci) {
       CHECK(comps(B) == b, std::string("C01|compound|operand-modified|") + names[op], "d=%d", d);
       break;
     }
-    case 5: {  // Transpose / Real / Imag
-      std::vector<double> c = gen_components(s, d, &pat, 500);
+    case 5: {  // Transpose / Real / Imag: pure copies and sign changes, so the whole exponent range of double is in the domain
+      std::vector<double> c = gen_components(s, d, &pat, s.tail_choose(3) == 1 ? 1022 : 500);
       ci.label("transpose-real-imag;pat-" + pat); ci.nontrivial = two_kinds(c, d) && (nonzero_kinds(c, d) & 4);
       ci.sample = fmt("Transpose/Real/Imag d=%d comps=%s", d, vec_str(c).c_str());
       SU_vector v = make_vec(c, d);
